@@ -13,7 +13,8 @@ LEVEL = "exploration"
 RULE = (
     "one sub-check per transformer; generated panels (1..6 instances, 1..3 columns, lengths "
     "2..30, equal and - where supported - unequal, nested Series cells or 3-D array) or single "
-    "series (with leading / interior / trailing gaps for imputation) and the transformer's options; "
+    "series (with leading / interior / trailing gaps for imputation) and the transformer's options "
+    "(optionally given through set_params, on an object fitted before on a panel of other lengths); "
     "oracle = a plain-loop reference written from the docstring (PAA frames with exact "
     "fractions). non-trivial = option away from its default, or unequal lengths, or >= 2 columns, "
     "or length not divisible by the number of frames/intervals, or a gap at the edge; distinct = "
